@@ -10,8 +10,9 @@ package main
 //                (net/http/httptest on loopback).
 //
 //   call <reqprog> <repprog> <errprog> <kind> <qlimit> <rlimit>
-// The three programs are the op lists the real encoders produce for the request, the
-// reply and the RESPONSE_TOO_LARGE error reply (recorded with a recording transport).
+// <reqprog>, <repprog>: the op lists the real encoders produce for the request and the
+// reply; <errprog>: comma-separated programs of the five steps of sendError for the
+// RESPONSE_TOO_LARGE error reply (all recorded with a recording transport).
 
 import (
 	"bytes"
@@ -36,7 +37,7 @@ type c12Server struct {
 	respHdr  int // extra response header bytes added by the handler
 	pf       *frugal.FProtocolFactory
 	repOps   []c12Op
-	errOps   []c12Op
+	errSegs  [][]c12Op
 	invoked  int
 	replyErr error
 }
@@ -57,10 +58,24 @@ func (s *c12Server) Process(fctx frugal.FContext, in, out *frugal.FProtocol) err
 	// what the encoders write for the reply and for the too-large error reply
 	rec := &c12Recorder{}
 	s.base.SendReply(fctx, s.pf.GetProtocol(rec), "m", s.result)
+	// sendError's five steps (each stops at its own first error; errors between them are ignored)
 	rec2 := &c12Recorder{}
-	s.base.SendError(fctx, s.pf.GetProtocol(rec2), frugal.APPLICATION_EXCEPTION_RESPONSE_TOO_LARGE, "m", fmt.Sprintf("Buffer size reached (%d)", s.rlimit))
+	ep := s.pf.GetProtocol(rec2)
+	ex := thrift.NewTApplicationException(frugal.APPLICATION_EXCEPTION_RESPONSE_TOO_LARGE, fmt.Sprintf("Buffer size reached (%d)", s.rlimit))
+	var segs [][]c12Op
+	mark := func() { segs = append(segs, rec2.ops); rec2.ops = nil }
+	ep.WriteResponseHeader(fctx)
+	mark()
+	ep.WriteMessageBegin(ctx, "m", thrift.EXCEPTION, 0)
+	mark()
+	ex.Write(ctx, ep)
+	mark()
+	ep.WriteMessageEnd(ctx)
+	mark()
+	ep.Flush(ctx)
+	mark()
 	s.mu.Lock()
-	s.repOps, s.errOps = rec.ops, rec2.ops
+	s.repOps, s.errSegs = rec.ops, segs
 	s.invoked++
 	s.mu.Unlock()
 	err := s.base.SendReply(fctx, out, "m", s.result)
@@ -155,7 +170,8 @@ func c12CallClass(err error) string {
 }
 
 type c12CallOut struct {
-	req, rep, errp []c12Op
+	req, rep       []c12Op
+	errp           [][]c12Op
 	sent           bool
 	sentBytes      []byte
 	replyLen       int
@@ -220,7 +236,7 @@ func c12RealCall(kind, proto string, args, result *c12Shape, reqHdr, respHdr int
 		out.replyLen = loop.replyLen
 	}
 	srv.mu.Lock()
-	out.rep, out.errp = srv.repOps, srv.errOps
+	out.rep, out.errp = srv.repOps, srv.errSegs
 	srv.mu.Unlock()
 	return out, ""
 }
@@ -231,6 +247,17 @@ func c12Sum(ops []c12Op) int {
 		t += o.size()
 	}
 	return t
+}
+
+func c12Segs(segs [][]c12Op) string {
+	if len(segs) == 0 {
+		return "-"
+	}
+	parts := make([]string, len(segs))
+	for i, sg := range segs {
+		parts[i] = hx(c12Encode(sg))
+	}
+	return strings.Join(parts, ",")
 }
 
 func c12YN(b bool) string {
@@ -301,7 +328,7 @@ func c12JudgeCall(p c12CallParams) (line, real, bad string, assumed bool) {
 	if o != "" {
 		return fmt.Sprintf("c12call %s - - %s %d %d %s", prog(out.req), p.kind, p.qlimit, p.rlimit, p.tail()), o, "Call " + o, false
 	}
-	line = fmt.Sprintf("c12call %s %s %s %s %d %d %s", prog(out.req), prog(out.rep), prog(out.errp), p.kind, p.qlimit, p.rlimit, p.tail())
+	line = fmt.Sprintf("c12call %s %s %s %s %d %d %s", prog(out.req), prog(out.rep), c12Segs(out.errp), p.kind, p.qlimit, p.rlimit, p.tail())
 	real = fmt.Sprintf("sent=%s res=%s", c12YN(out.sent), out.res)
 	Q := 4 + c12Sum(out.req)
 	if p.qlimit > 0 && uint(Q) > p.qlimit {
@@ -330,7 +357,10 @@ func c12JudgeCall(p c12CallParams) (line, real, bad string, assumed bool) {
 		return
 	}
 	R := 4 + c12Sum(out.rep)
-	E := 4 + c12Sum(out.errp)
+	E := 4
+	for _, sg := range out.errp {
+		E += c12Sum(sg)
+	}
 	over := p.rlimit > 0 && uint(R) > p.rlimit
 	if p.kind == "http" {
 		over = p.rlimit > 0 && uint(R-4) > p.rlimit // the HTTP payload limit counts the unframed reply
@@ -389,6 +419,11 @@ func c12CallCase(r *Rng, i int) {
 	default:
 		p.qlimit, p.rlimit = lim(Q), lim(R)
 	}
+	if c12KnownClass(p, R) {
+		// known finding json-sticky-writer: keep the reply within the limit
+		p.rlimit = uint(R + r.Intn(9))
+		Stat("call:excluded-known-class(json-sticky-writer)")
+	}
 	line, real, bad, assumed := c12JudgeCall(p)
 	Case(line, real)
 	Stat("call:kind:" + p.kind)
@@ -408,5 +443,23 @@ func c12CallCase(r *Rng, i int) {
 		// smallest failing variant: drop the fields that are not needed
 		OracleFail("size limit not enforced/reported exactly at the client API", map[string]interface{}{"op": "c12call", "line": line, "got": real, "why": bad,
 			"kind": p.kind, "protocol": p.proto, "args": p.args.String(), "result": p.result.String(), "qlimit": p.qlimit, "rlimit": p.rlimit})
+	}
+}
+
+// ---------- known finding: buffered (JSON) encoder swallows the error reply ----------
+
+const c12KnownID = "json-sticky-writer"
+
+// c12KnownClass: NATS-shaped server, JSON protocol, reply over the server-side limit.
+func c12KnownClass(p c12CallParams, replyFramed int) bool {
+	return p.kind == "loop" && p.proto == "json" && p.rlimit > 0 && uint(replyFramed) > p.rlimit
+}
+
+// c12KnownWitness replays known/c12_json_sticky: Known(...) while it still fails.
+func c12KnownWitness() {
+	p := c12CallParams{kind: "loop", proto: "json", args: c12ParseShape("string:5"), result: c12ParseShape("string:200"), rlimit: 150}
+	_, real, bad, _ := c12JudgeCall(p)
+	if bad != "" {
+		Known(c12KnownID, "server-side RESPONSE_TOO_LARGE is not reported with TJSONProtocol: the reply is found too large at Flush, the protocol's bufio.Writer keeps that error and drops everything sendError writes through it; the published reply holds only the response header and the caller fails with a protocol error ("+real+") instead of transport exception 101")
 	}
 }
